@@ -18,6 +18,8 @@ type env struct {
 	bars        []*mpb.Bar
 	cancel      context.CancelFunc
 	manualRC    chan interface{}
+	refreshMu     sync.Mutex
+	refreshClosed bool
 	delayCh     chan struct{}
 	notifier    chan interface{}
 	stopCh      chan struct{}
@@ -429,8 +431,26 @@ func (e *env) do(client, idx int, op Op) {
 		b.TraverseDecorators(func(decor.Decorator) { simrt.Log(simrt.Entry{Kind: "trav", ID: bi}) })
 	case OpAvgAdjust:
 		b.DecoratorAverageAdjust(simrt.TimeOf(op.N))
+	case OpCloseRefresh:
+		if e.manualRC != nil {
+			e.refreshMu.Lock()
+			if !e.refreshClosed {
+				e.refreshClosed = true
+				close(e.manualRC)
+				r = 1
+			}
+			e.refreshMu.Unlock()
+		}
 	case OpRefresh:
 		if e.manualRC != nil {
+			// (senders and the closer of the channel take turns: a send on a closed channel would be
+			// the program's own fault)
+			e.refreshMu.Lock()
+			if e.refreshClosed {
+				e.refreshMu.Unlock()
+				break
+			}
+			defer e.refreshMu.Unlock()
 			var v interface{} = time.Now()
 			if op.Flag {
 				v = struct{}{}
